@@ -78,6 +78,8 @@ def r11_shared(run, tree):
     from . import direction_folds as df
     af.check_to_fold(run, tree)
     df.check_vector_forms(run, tree)
+    from . import quantity_stack as qs
+    qs.check_array_norm_identity(run, tree)
 
 
 RULES = [r_layer_views, r1, r2, r3, r4_r5, r6, r7, r9, r11_shared]
